@@ -1030,6 +1030,45 @@ def run_long(ctx, long_cases, dist):
 
 
 
+# --------------------------------------------------------------------------
+# two-decimal proportions at whole-number boundaries (p * nc = K exactly)
+# --------------------------------------------------------------------------
+# coq/C16/SweepP.v: the 25 (j, nc) with p = j/100, nc <= 400, on which a count-form test
+# (count > p * nc) differs from the source's mean-form (count / nc > p) at count = K
+DISAGREEING_PAIRS = [(29, 100), (29, 200), (29, 400), (35, 180), (35, 340), (35, 360), (41, 300),
+                     (57, 100), (57, 200), (57, 300), (57, 400), (58, 50), (58, 100), (58, 200), (58, 400),
+                     (69, 300), (70, 90), (70, 170), (70, 180), (70, 330), (70, 340), (70, 350), (70, 360),
+                     (82, 150), (82, 300)]
+CONTROL_PAIRS = [(20, 5), (20, 385), (20, 400), (25, 384), (29, 300), (35, 20), (50, 2), (50, 384), (58, 150),
+                 (70, 10), (75, 4), (10, 10), (1, 100), (99, 400), (33, 100)]
+
+
+def gen_exact_proportion(rng, j, nc, clause):
+    """proportion j/100 on nc channels, K = j*nc/100 a whole number: consecutive samples with exactly
+    K-1, K, K+1 (and K again) offending channels, nested sets so that nothing else comes near the
+    boundary; clause 'amplitude' (slew rule off) or 'slew' (full scale out of reach)."""
+    K = j * nc // 100
+    assert j * nc == 100 * K
+    dt = rng.choice([np.float32, np.float64])
+    counts = [K, max(K - 1, 0), min(K + 1, nc), K]
+    rng.shuffle(counts)
+    counts = [0] + counts + [K]
+    order = list(range(nc))
+    rng.shuffle(order)
+    data = np.zeros((nc, len(counts) + 1), dtype=dt)
+    if clause == "amplitude":
+        for jj, c in enumerate(counts):
+            data[order[:c], jj] = dt(rng.choice([0.99, -0.99, 1.5]))
+        return Case(data, rng.choice(["pyfloat", "f64array"]), [1.0] if True else None, 1e30 if dt == np.float64 else 1e25,
+                    30000, j / 100, rng.choice([7, 3]), "exact_proportion_amplitude")
+    step = dt(1e-3)         # slew limit v_per_sec * fs = 3e-4: a step of 1e-3 is over, 0 is under
+    for jj, c in enumerate(counts):
+        data[:, jj + 1] = data[:, jj]
+        sel = order[:c]
+        data[sel, jj + 1] = np.where(data[sel, jj] == 0, step, dt(0))
+    return Case(data, "pyfloat", [1e6], 1e-8, 30000, j / 100, rng.choice([7, 5]), "exact_proportion_slew")
+
+
 def gen_special(rng):
     """Infinities from overflowing differences, negative proportion (the appended 0 fires),
     shapes that broadcast oddly or not at all."""
@@ -1089,6 +1128,15 @@ def gen_cases(ctx):
     for rep in range(3 * n):
         for kind in kinds + ["np1_3b_ap", "np1_3a_ap"]:
             cases.append(gen_reader(rng, kind, rng.choice([7, 7, 3, 5, 9])))
+    # exactly-the-proportion counts for two-decimal proportions: every pair on which a count-form test
+    # would differ (SweepP.v), plus controls; amplitude and slew clause
+    ctrl = CONTROL_PAIRS if ctx.thorough() else rng.sample(CONTROL_PAIRS, 7)
+    for k, (j, nc) in enumerate(DISAGREEING_PAIRS + ctrl):
+        both = ctx.thorough() or nc <= 200
+        if both or k % 2 == 0:
+            cases.append(gen_exact_proportion(rng, j, nc, "amplitude"))
+        if both or k % 2 == 1:
+            cases.append(gen_exact_proportion(rng, j, nc, "slew"))
     # a reader without metadata (unknown full scale = NaN); NaN samples; tapers longer than usual / than the array
     cases.append(gen_nometa(rng, 385, 7))
     cases.append(gen_nometa(rng, 384, rng.choice([3, 5])))
